@@ -225,3 +225,50 @@ func zzNodes(n ...*html.Node) []*html.Node { return n }
 func zzFlat(s string) string {
 	return strings.Join(strings.Fields(s), "")
 }
+
+// zzRenderVia renders body with data through one of the engine's entry
+// points, chosen per path: the properties are stated for the engine, not for
+// one method. File entry points get the body as a file of the filesystem.
+// quick: RenderString and RenderFile; thorough: all six.
+func zzEntry() int { return zzChoice("entry", zzBound("entries", 2, 6)) }
+
+func zzRenderVia(entry int, fsys *zzFS, opts []LoadOption, body string, data map[string]any) (string, error) {
+	if fsys == nil {
+		fsys = newZZFS(map[string]string{})
+	}
+	const page = "zz_page.vuego"
+	if entry == 1 || entry == 2 || entry == 5 {
+		fsys.files[page] = body
+	}
+	tpl := NewFS(fsys, opts...)
+	vue := NewVue(fsys)
+	once := func() (string, error) {
+		var sb strings.Builder
+		var err error
+		switch entry {
+		case 0:
+			err = tpl.New().Fill(data).RenderString(contextBackground(), &sb, body)
+		case 1:
+			err = tpl.New().Fill(data).RenderFile(contextBackground(), &sb, page)
+		case 2:
+			err = tpl.Load(page).Fill(data).Render(contextBackground(), &sb)
+		case 3:
+			err = tpl.New().Fill(data).RenderByte(contextBackground(), &sb, []byte(body))
+		case 4:
+			err = tpl.New().Fill(data).RenderReader(contextBackground(), &sb, strings.NewReader(body))
+		case 5:
+			if len(opts) > 0 {
+				err = tpl.New().Fill(data).RenderString(contextBackground(), &sb, body)
+				break
+			}
+			err = vue.RenderFragment(&sb, page, data)
+		}
+		return sb.String(), err
+	}
+	out, err := once()
+	// the same request again on the same engine: whatever the property at
+	// hand says about this input, it says it about both renders
+	out2, err2 := once()
+	zzAssert((err == nil) == (err2 == nil) && out == out2, "rerender.same-engine-same-input-differs")
+	return out, err
+}
